@@ -415,6 +415,23 @@ def gate_check(ck, exe, model, lps, r, count):
                              no_input=True)
 
 
+def driver_only(ck, exe, model, lps, cfgs):
+    """solves whose control trace is replayed through the driver model but whose answers are NOT judged here (LP families
+    whose answers belong to another property's check, e.g. the presolve-rich LPs of C08: they reach the driver paths that
+    ordinary LPs do not - presolve verdicts, VANISHED, failed verification and the re-solve without preprocessing)"""
+    S = Session(ck, exe, model)
+    runs, rc, crashed = S.run(lps, cfgs)
+    ans = S.judge_queries(lps, runs)
+    for k in range(len(lps)):
+        for ru in runs[k]:
+            t = ru.get("drv", "")
+            for code, nm in (("41", "verification-failed"), ("23", "vanished"), ("21", "ensureray-resolve"), ("25", "resolve-without-preprocessing"),
+                             ("32", "unsimplify-threw"), ("26", "singular-retry"), ("27", "cycling-store"), ("43", "objlimit-toggled")):
+                if (";" + t).find(";%s," % code) >= 0:
+                    ck.count("driver-path:" + nm)
+    driver_verdicts(ck, lps, cfgs, runs, {}, ans, set())
+
+
 def run_in_chunks(ck, exe, model, lps, cfgs, chunk=60, workers=8, hists=None):
     """classify + run + judge in parallel chunks; returns per-LP dicts keyed by the global LP index.
     A chunk whose checker run failed is dropped from judgement (reported once as checker-crash)."""
